@@ -6,11 +6,14 @@ def run(ctx):
     ctx.rule = ("histories of actions (owner sends 1-3 references in one call, possibly in a call the receiver discards; "
                 "next O->H / H->O message delivered; proxy dropped with or without running the eventual queue; proxy sent "
                 "home / called through; connection lost) chosen at random among the enabled ones on two real Brokers with "
-                "message-granular delivery, 5 profiles (1, 2, 4 objects; discards; loss), plus corpus witnesses; a case is one "
+                "message-granular delivery, 7 profiles (1, 2, 4 objects; discards; loss; bound methods; and `turns`: the owner sends "
+                "again 0..3 eventual-send generations after an H->O message -- decref, call through a proxy, proxy sent home -- was "
+                "handed to its Broker, i.e. between the reactor turns its handling takes), plus corpus witnesses; a case is one "
                 "history; non-trivial = it contains a re-send of a reference while a release of it is unanswered; after connection loss "
                 "the histories go on sending / calling through the stale proxies (callRemote and callRemoteOnly with by-reference "
                 "arguments, also from notifyOnDisconnect handlers) and the dead Brokers' tables must stay empty; plus ALL "
-                "interleavings (depth 6 quick / 8 thorough) of re-send, delivery, release and answer around a decref in flight, and "
+                "interleavings (depth 6 quick / 8 thorough) of re-send, delivery, release and answer around a decref in flight (and, depth "
+                "4 / 6, with the re-send placed 0, 1 or 2 turns into the delivery of the decref), and "
                 "a reconnection family on real Tubs (tables of the dead Broker pair after reconnection); and a Tub talking to itself "
                 "over broker.LoopbackTransport, shut down (5 ways) after every number of eventual-send generations while calls, "
                 "answers and callbacks carrying references are in flight in both directions; three parties: the gifter forgets its "
